@@ -138,7 +138,10 @@ def mkRow (cfg : Cfg H) (s : Store H) (x : Src H) : Row H :=
 def concurrent (s : Store H) (r : Row H) : Bool :=
   match r.st with
   | .orphan => false
-  | .lc => match lcAtHeight s r.height with
+  | .lc =>
+    -- a header that adds no work is compared with the tip like a competing one (fix 'adds no work')
+    if r.work = 0 then true
+    else match lcAtHeight s r.height with
       | some oh => decide (oh.hash ≠ r.hash)
       | none => false
   | .stale => true
